@@ -82,8 +82,8 @@ def _coef(rng, zs):
 def gen_ro_sep(rng, cfg):
     cone = rng.choice(['lp', 'soc', 'soc', 'exp'])
     zs = {'z': rng.randint(2, 4)}
-    if rng.random() < 0.35:
-        zs['w'] = rng.randint(1, 3)
+    if rng.random() < 0.4:
+        zs['w'] = rng.choice([1, 1, 2, 3])
     K = rng.randint(2, 4)
     fams = gen.fams_for(cone)
     steps = []
@@ -120,6 +120,7 @@ def gen_ro_sep(rng, cfg):
 
     expect = {'x': [], 'obj_const': 0.0}
     shared = []
+    s_one = [None]
     # optional binary with a user bound that excludes one value (objective rewards ignoring the bound)
     objterms = list(xs)
     ints = False
@@ -218,6 +219,23 @@ def gen_ro_sep(rng, cfg):
             shared.append(('ze%d' % k, zn0))
             ce = ['<=', ['+', xs[k], ['v', 'ze%d' % k]], ['c', b]]
             s_c = add({'op': 'cons', 'id': 'c%d' % k, 'e': ce}, set(cdeps) | {s_e}, role='cons')
+        elif len(a_used) == 2 and rng.random() < cfg.get('p_biaffine_parts', 0.6):
+            # the random part is a sum of BI-AFFINE expression objects one * (a_z . z) + one * (a_w . w), `one` being a decision
+            # fixed to 1; each product is its own object and may be built before the other random array is declared
+            if s_one[0] is None:
+                s_one[0] = add({'op': 'dvar', 'id': 'one', 'm': 'm'}, [s_m])
+                add({'op': 'cons', 'id': 'bone', 'e': ['==', ['v', 'one'], ['c', 1.0]]}, [s_one[0]], role='bound')
+                s_bound.append(add({'op': 'st', 'm': 'm', 'ids': ['bone']}, [steps[-1]['sid']], role='bound'))
+            parts = []
+            for zn in sorted(a_used):
+                pid = 'bp%d%s' % (k, zn)
+                parts.append((pid, add({'op': 'expr', 'id': pid, 'e': ['*', ['v', 'one'], ['@', ['c', a_used[zn]], ['v', zn]]]},
+                                       [s_one[0], s_z[zn]], role='expr')))
+            if rng.random() < 0.5:
+                parts.reverse()
+            e_ = ['+', ['v', parts[0][0]], ['v', parts[1][0]]]
+            e_ = ['+', xs[k], e_] if rng.random() < 0.5 else ['+', ['+', ['v', parts[0][0]], xs[k]], ['v', parts[1][0]]]
+            s_c = add({'op': 'cons', 'id': 'c%d' % k, 'e': ['<=', e_, ['c', b]]}, {s_x[k]} | {p_[1] for p_ in parts}, role='cons')
         else:
             s_c = add({'op': 'cons', 'id': 'c%d' % k, 'e': _lin_forms(rng, xs[k], a_used, b)}, cdeps, role='cons')
         last = s_c
